@@ -157,7 +157,7 @@ def c02(ctx):
         ok = k in produced or k in ("Comment", "Error")
         rep.ob("C02.R2", "produced::" + k, ok, "" if ok else "the parser matches token kind %s (in %s) but the lexer never produces it: that spelling of the grammar is dead" % (k, where), None, how="constructed in lexer.rs / keyword table")
     sites = tokens.consume_sites(F)
-    rep.floor("C02.R2c", len(sites), 15, "consume() call sites")
+    rep.floor("C02.R2c", len(sites), 10, "consume() call sites")
     for fn, bb, t in sites:
         ok, why = tokens.check_consume_site(F, fn, bb, t)
         rep.ob("C02.R2", "consume::%s#%d" % (fn.path, bb), ok, "" if ok else why, fn.loc(t["line"]), how=why if ok else "")
@@ -406,7 +406,7 @@ def noise_and_blocks(ctx):
                 rep.ob("C02.R6", "whitespace-classifier::%s" % common.top_fn(F, fn).path, ok,
                        "" if ok else "%s classifies white space with %s while the rest of the lexer uses %s: a character on which the two disagree ends a word but is not skipped (or the reverse)" % (
                            common.top_fn(F, fn).path, d, major), fn.loc(t["line"]), how=major.rsplit("::", 2)[-1])
-    rep.floor("C02.R6", n, 3, "white-space classifications in the lexer")
+    rep.floor("C02.R6", n, 2, "white-space classifications in the lexer")
     # ---- R7
     from .. import kind, kindtables as kt
     fn = F.fn("frontend::parser::is_function_terminator")
